@@ -8,7 +8,9 @@ EXTENDS KeyLife17
 Witness ==
   /\ (\E n \in 1..Len(hist) : hist[n].op = "verify" /\ hist[n].ok /\ hs[ss[hist[n].s].by].origin = "imp") => TLCSet(11, TRUE)
   /\ (\E n \in 1..Len(hist) : hist[n].op = "verify" /\ ~hist[n].ok) => TLCSet(12, TRUE)
-  /\ (\E i \in 1..Len(hs) : hs[i].origin = "imp" /\ hs[ts[hs[i].text].from].origin = "imp") => TLCSet(13, TRUE)
-MCInit == Init /\ TLCSet(11, FALSE) /\ TLCSet(12, FALSE) /\ TLCSet(13, FALSE)
-NonVacuous == TLCGet(11) /\ TLCGet(12) /\ TLCGet(13)
+  /\ (\E i \in 1..Len(hs) : hs[i].origin = "imp" /\ ts[hs[i].text].from # 0 /\ hs[ts[hs[i].text].from].origin = "imp") => TLCSet(13, TRUE)
+  /\ (\E n \in 1..Len(hist) : hist[n].op = "verify" /\ hist[n].ok /\ hist[n].key \in Provided) => TLCSet(14, TRUE)
+  /\ (\E n \in 1..Len(hist) : hist[n].op = "verify" /\ ~hist[n].ok /\ hist[n].key \in Provided) => TLCSet(15, TRUE)
+MCInit == Init /\ TLCSet(11, FALSE) /\ TLCSet(12, FALSE) /\ TLCSet(13, FALSE) /\ TLCSet(14, FALSE) /\ TLCSet(15, FALSE)
+NonVacuous == TLCGet(11) /\ TLCGet(12) /\ TLCGet(13) /\ TLCGet(14) /\ TLCGet(15)
 =============================================================================
